@@ -411,6 +411,14 @@ def scenarios_c06():
     out.append(('mixed post | post existing', {
         'A': post_allocs({K3: (a3, 'null', 'pA'), K2: (a2, 'cur', 'pA')}),
         'B': post_allocs({K2: ({R: {'VCPU': 1}}, 'cur', 'pB')})}))
+    # a request naming a NEW consumer with nothing to write, racing a writer
+    # that carries generation 0 for it
+    out.append(('new: put-empty:null|put:0', {
+        'A': put_alloc(K3, {}, 'null', 'pA'),
+        'B': put_alloc(K3, a1, 0, 'pB')}))
+    out.append(('new: post-empty:null + write|put:0', {
+        'A': post_allocs({K3: ({}, 'null', 'pA'), K4: (a3, 'null', 'pA')}),
+        'B': put_alloc(K3, a1, 0, 'pB')}))
     # clearing writes in flight together
     out.append(('existing: put-clear|put-clear identical', {
         'A': put_alloc(K1, {}, 'cur', 'pA'),
@@ -688,6 +696,13 @@ def judge(pid, scen_name, reqs, d0, result, serial, res, use_serial=True):
                         for m in names):
                     mech = 'success-on-consumer-auto-created-by-failed-' \
                            'request'
+                elif g is not None and c not in d0.consumers and any(
+                        m != n and ((reqs[m]['tag'] or {}).get('cgen') or {}
+                                    ).get(c, 0) is None for m in names):
+                    # (same root, the creator succeeds: it had nothing to
+                    # write for the consumer it created)
+                    mech = 'success-on-consumer-auto-created-by-request-' \
+                           'in-flight'
         res.violation(
             '%s|%s|%s' % (pid, kind, mech or scen_name),
             '%s [%s] outcome %s: successes %s are not equivalent to any '
